@@ -260,3 +260,22 @@ Proof.
   eexists. split; [vm_compute; reflexivity|]. split; [reflexivity|]. split; [reflexivity|].
   repeat (split; [first [reflexivity | (vm_compute; reflexivity) | (repeat constructor; reflexivity)]|]). exact I.
 Qed.
+
+(* C17-F5 (known finding): a key line added by hand to an object-stream dictionary BEHIND its /Type /ObjStm line keeps
+   every layout rule, fix-qdf exits 0, and the line is in no line of the output; the same line put BEFORE the /Type
+   line is copied through.  ("whose document is exactly the edited one" is false for this edit.) *)
+Definition c17x_key_behind : list (list N) := c17x_os c17_l_obj1 [c17x_l_mykey] c17_l_pair c17_l_member.
+Definition c17x_key_before : list (list N) :=
+  [c17_l_obj1; c17_l_open; c17x_l_mykey; c17_l_type; c17x_l_len; c17_l_close; fqk_stream_nl; c17_l_pair; c17_l_member;
+   c17_l_open; c17_l_key; c17_l_close; fqk_endstream_nl; fqk_endobj_nl].
+Definition c17x_has_line (l : list N) (r : fq_result) : bool := existsb (fq_eqb l) (fq_split_lines (fq_output r)).
+
+Lemma fixqdf_objstm_hand_key_refuted_lemma :
+  exists key f f',
+    fq_match_extends key = None /\ existsb (fq_eqb key) f = true /\ existsb (fq_eqb key) f' = true /\
+    fq_exit_status (fixqdf_lines f) = 0 /\ c17x_has_line key (fixqdf_lines f) = false /\
+    fq_exit_status (fixqdf_lines f') = 0 /\ c17x_has_line key (fixqdf_lines f') = true.
+Proof.
+  exists c17x_l_mykey, c17x_key_behind, c17x_key_before.
+  repeat (split; [vm_compute; reflexivity|]). vm_compute; reflexivity.
+Qed.
